@@ -18,6 +18,15 @@ def inline(
     """
     Inline calls to FPy functions in `func`.
 
+    A callee's body is spliced in ahead of the statement holding the call,
+    where it runs exactly once.  A call for which that is not when the
+    original evaluates it is refused rather than inlined: one in a `while`
+    condition, a comprehension element or later generator, a branch of an `if`
+    expression, a later operand of `and` / `or` or of a comparison chain; and
+    one the statement reaches only after evaluating something else, unless
+    that is a name or a constant or neither has side effects.  A refusal is
+    not a site and takes no index; :func:`fpy2.strategies.refusals` lists them.
+
     Parameters
     ----------
     func : Function
